@@ -1,7 +1,7 @@
 package desc
 
 import (
-		"fmt"
+	"fmt"
 	"math"
 	"strconv"
 
@@ -185,26 +185,26 @@ type SDep struct {
 }
 
 type Snapshot struct {
-	Path    string  `json:"path"`
-	Pkg     string  `json:"pkg"`
-	Name    string  `json:"name"`
-	Syntax  string  `json:"syntax"`
-	Edition int     `json:"edition"`
-	Root    bool    `json:"root"` // Parent() == nil, ParentFile() == self, Index() == 0, FullName() == Package()
-	Opts    string  `json:"opts"`
-	EF      EF      `json:"ef"`
-	O       SOpt    `json:"o"`
-	Deps    []SDep  `json:"deps"`
+	Path    string   `json:"path"`
+	Pkg     string   `json:"pkg"`
+	Name    string   `json:"name"`
+	Syntax  string   `json:"syntax"`
+	Edition int      `json:"edition"`
+	Root    bool     `json:"root"` // Parent() == nil, ParentFile() == self, Index() == 0, FullName() == Package()
+	Opts    string   `json:"opts"`
+	EF      EF       `json:"ef"`
+	O       SOpt     `json:"o"`
+	Deps    []SDep   `json:"deps"`
 	OptDeps []string `json:"optdeps"`
-	NMsgs   int     `json:"nmsgs"`
-	NEnums  int     `json:"nenums"`
-	NExts   int     `json:"nexts"`
-	NSvcs   int     `json:"nsvcs"`
-	Miss    bool    `json:"miss"`
-	Msgs    []SMsg  `json:"msgs"`
-	Enums   []SEnum `json:"enums"`
+	NMsgs   int      `json:"nmsgs"`
+	NEnums  int      `json:"nenums"`
+	NExts   int      `json:"nexts"`
+	NSvcs   int      `json:"nsvcs"`
+	Miss    bool     `json:"miss"`
+	Msgs    []SMsg   `json:"msgs"`
+	Enums   []SEnum  `json:"enums"`
 	Exts    []SField `json:"exts"`
-	Svcs    []SSvc  `json:"svcs"`
+	Svcs    []SSvc   `json:"svcs"`
 }
 
 const absentName = "zz_absent_zz"
